@@ -19,6 +19,13 @@ def runOk (P : Prog) : Nat → Cfg → Option Cfg
 
 namespace Shape
 
+theorem reach_reach {P : Prog} {c0 c1 c2 : Cfg} (h1 : Reach P c0 c1) (h2 : Reach P c1 c2) : Reach P c0 c2 := by
+  induction h2 with
+  | init => exact h1
+  | step _ hs ih => exact .step ih hs
+  | deliver _ hd ih => exact .deliver ih hd
+  | halt _ hs ih => exact .halt ih hs
+
 theorem reach_runOk {P : Prog} {c0 c : Cfg} {n : Nat} (h : runOk P n c0 = some c) : Reach P c0 c := by
   induction n generalizing c with
   | zero => cases h; exact .init
@@ -125,6 +132,28 @@ theorem testCall_spec {P : Prog} {n k : Nat} {c0 : Cfg} {f : Cfg → Cfg → Cfg
     obtain ⟨s, K, hK⟩ := headIsNewLoop_spec h.1
     exact ⟨c, c1, c2, c3, s, K, reach_runOk hc, hK, step_runOk hc hc1, reach_runOk_from k hc1 hc2,
       trans_runOk hc2 hc3, h.2⟩
+  · cases h
+
+/-- boolean test on a transition of the run that continues after the reader thread delivers a line
+right after step `n` -/
+def testDeliver (P : Prog) (n k : Nat) (c0 : Cfg) (f : Cfg → Cfg → Bool) : Bool :=
+  match runOk P n c0 with
+  | some c =>
+    match c.deliver with
+    | some d => testTrans P k d f
+    | none => false
+  | none => false
+
+theorem testDeliver_spec {P : Prog} {n k : Nat} {c0 : Cfg} {f : Cfg → Cfg → Bool} (h : testDeliver P n k c0 f = true) :
+    ∃ c c', Reach P c0 c ∧ Trans P c c' ∧ f c c' = true := by
+  unfold testDeliver at h
+  split at h
+  · rename_i cn hcn
+    split at h
+    · rename_i d hd
+      obtain ⟨c, c', hr, ht, hf⟩ := testTrans_spec h
+      exact ⟨c, c', reach_reach (.deliver (reach_runOk hcn) hd) hr, ht, hf⟩
+    · cases h
   · cases h
 
 end Shape
